@@ -108,14 +108,18 @@ Proof. cbv zeta. repeat split; vm_compute; reflexivity. Qed.
 (* Paths with existence filters, from the path text (FiltParse.v, FiltChain.v, FiltAddr.v, FiltChainAddr.v): the steps of
    `$` s1 s2 ... may also be filters [?(@ inner)] over a path of inner steps.  nav_allf is defined on documents alone:
    a filter step keeps, of the elements of an array in index order or the members of an object in ascending key order,
-   those from which the inner steps reach at least one value (reaches); it selects nothing from a scalar. *)
-From JP Require Import FiltParse FiltChain FiltAddr FiltChainAddr.
+   those from which the inner steps reach at least one value (reaches); it selects nothing from a scalar.  A comparison
+   filter [?(@ inner OP number)] (CmpParse.v, CmpAddr.v; OP one of == != < <= > >=, inner a single-valued path, the number
+   any spelling the grammar's lNumber accepts that strconv.ParseFloat — a parameter of the model, fstep_okp — parses)
+   keeps those whose value reached by inner is a number, float64 or json.Number alike, standing in that relation to the
+   literal; for != the complement, so members from which inner reaches no number are kept (ctest / entry_test). *)
+From JP Require Import FiltParse CmpParse FiltChain FiltAddr CmpAddr FiltChainAddr.
 Theorem C01_filter_retrieval : forall cfg parse_float regex_ok ffun afun regex_match,
   (forall f v w, small v -> ffun f v = Some w -> small w) ->
   (forall f l w, Forall small l -> afun f l = Some w -> small w) ->
-  forall x r doc st, forallb fstep_ok (x :: r) = true -> small doc -> ok st ->
+  forall x r doc st, forallb fstep_ok (x :: r) = true -> forallb (fstep_okp parse_float) (x :: r) = true -> small doc -> ok st ->
   exists t, parse_with cfg parse_float regex_ok jsonpath_grammar (fchain_path (x :: r)) = ParseOk t /\
-            match nav_allf (x :: r) ([], doc) with
+            match nav_allf parse_float (x :: r) ([], doc) with
             | [] => exists e, fst (eval_run ffun afun regex_match t doc st) = OErr e
             | l => fst (eval_run ffun afun regex_match t doc st) = OOk (map (loc_result cfg) l)
             end.
@@ -127,6 +131,17 @@ Example C01_filter_example :
   let path := [FE [RPlain (SDot [97%N])]] in
   fchain_path path = [36; 91; 63; 40; 64; 46; 97; 41; 93]%N /\
   forallb fstep_ok path = true /\
-  map snd (nav_allf path ([], doc)) = [VObj [("a", VNum (num_of_Z 1))]; VObj [("a", VNull)]]%string /\
-  map snd (nav_allf [FS (RPlain (SWild false)); FE []] ([], VObj [("k", doc)]%string)) = [VObj [("a", VNum (num_of_Z 1))]; VObj [("b", VNum (num_of_Z 2))]; VNum (num_of_Z 3); VObj [("a", VNull)]]%string.
+  map snd (nav_allf (fun _ => None) path ([], doc)) = [VObj [("a", VNum (num_of_Z 1))]; VObj [("a", VNull)]]%string /\
+  map snd (nav_allf (fun _ => None) [FS (RPlain (SWild false)); FE []] ([], VObj [("k", doc)]%string)) = [VObj [("a", VNum (num_of_Z 1))]; VObj [("b", VNum (num_of_Z 2))]; VNum (num_of_Z 3); VObj [("a", VNull)]]%string.
+Proof. cbv zeta. repeat split; vm_compute; reflexivity. Qed.
+
+Example C01_comparison_filter_example :
+  let pf := fun s : string => if String.eqb s "2" then Some (num_of_Z 2) else None in
+  let doc := VArr [VObj [("a", VNum (num_of_Z 1))]; VObj [("a", VJNum "3" (num_of_Z 3))]; VObj [("b", VNum (num_of_Z 9))]; VObj [("a", VStr "5")]]%string in
+  let gt := [FC [RPlain (SDot [97%N])] OGt [50%N]] in
+  let ne := [FC [RPlain (SDot [97%N])] ONe [50%N]] in
+  fchain_path gt = [36; 91; 63; 40; 64; 46; 97; 62; 50; 41; 93]%N /\
+  forallb fstep_ok gt = true /\ forallb (fstep_okp pf) gt = true /\
+  map snd (nav_allf pf gt ([], doc)) = [VObj [("a", VJNum "3" (num_of_Z 3))]]%string /\
+  List.length (nav_allf pf ne ([], doc)) = 4%nat.
 Proof. cbv zeta. repeat split; vm_compute; reflexivity. Qed.
